@@ -259,6 +259,38 @@ CASES["known/KF-C05-2.json"] = conflict_case("order:acceptance", [], TRI_AB, TRI
 CASES["known/KF-C05-2"+".json"]["title"] = "acceptance of a type declared identically by two services and disjointly by a third depends on the service order"
 CASES["known/KF-C05-2"+".json"]["gate"] = "merge.neutralThreeWay"
 
+
+import base64
+def http_case(sig, body, ct="application/json", w=None):
+    if isinstance(body, str): body = body.encode()
+    return {"property": "C07", "signature": sig, "case": {"world": w or world(), "content_type": ct, "body_b64": base64.b64encode(body).decode(), "body_text": body.decode("utf-8", "replace")[:600], "kind": "handcrafted"}}
+
+GHOST = {"services": [{"url": "http://svc-0.test/graphql", "sdl": "type Query {\n  getGhost: Ghost\n  name: String\n}\ninterface Ghost {\n  boo: String\n}\n"}],
+         "union_sdl": "type Query {\n  getGhost: Ghost\n  name: String\n}\ninterface Ghost {\n  boo: String\n}\n",
+         "store": {"entities": {}, "roots": {"Query.getGhost": None, "Query.name": "n"}}}
+CASES["regress/KF-C07-1.json"] = http_case("process-death", '{"query":"{ node(id: \\"Human_1\\") { id } }"}')
+CASES["regress/KF-C07-2.json"] = http_case("process-death", '{"query":"{ getGhost { boo } }"}', w=GHOST)
+
+
+def multipart(fields, files):
+    b = "verifboundary7MA4YWxkTrZu0gW"
+    out = b""
+    for name, val in fields:
+        out += ("--%s\r\nContent-Disposition: form-data; name=\"%s\"\r\n\r\n%s\r\n" % (b, name, val)).encode()
+    for key, fname, data in files:
+        out += ("--%s\r\nContent-Disposition: form-data; name=\"%s\"; filename=\"%s\"\r\nContent-Type: application/octet-stream\r\n\r\n" % (b, key, fname)).encode() + data + b"\r\n"
+    out += ("--%s--\r\n" % b).encode()
+    return out, "multipart/form-data; boundary=" + b
+
+CASES["regress/KF-C07-3.json"] = http_case("panic", "[null]")
+_ops1 = '{"query":"{ getHumans { name } }","variables":{"files":[null,null]}}'
+_b, _ct = multipart([("operations", "[" + _ops1 + "]"), ("map", '{"0":["9.variables.files.0"]}')], [("0", "a.txt", b"x")])
+CASES["regress/KF-C07-4.json"] = http_case("panic", _b, _ct)
+_b, _ct = multipart([("operations", "[" + _ops1 + "]"), ("map", '{"0":["0"]}')], [("0", "a.txt", b"x")])
+CASES["regress/KF-C07-4b.json"] = http_case("panic", _b, _ct)
+_b, _ct = multipart([("operations", _ops1), ("map", '{"0":["variables.files.-1"]}')], [("0", "a.txt", b"x")])
+CASES["regress/KF-C07-4c.json"] = http_case("panic", _b, _ct)
+
 if __name__ == "__main__":
     import sys
     sys.path.insert(0, os.path.dirname(os.path.abspath(__file__)))
